@@ -534,6 +534,21 @@ pub fn run_family(fam: &Family, stats: &mut Stats) -> FamilyOutcome {
             violations.push((vi, v.clone()));
         }
     }
+    // The poison differential (C05) concludes "bytes outside the haystack
+    // were read" from a difference between variants. That inference needs a
+    // library whose answers are a function of the call: if the very same
+    // variant, run again with the same decisions, answers differently, the
+    // difference comes from state the library carried over (C15/C16 matters),
+    // not from an over-read.
+    let mut diff_kind = fam.diff_kind;
+    if diff_kind == VKind::Trap && outs.iter().skip(1).any(|o| o.log_hash != outs[0].log_hash) {
+        PROG_VARIANT.store(0, Ordering::Relaxed);
+        let mut scratch = Stats::default();
+        let again = execute(&ep, &fam.variants[0], Some(outs[0].choices.clone()), &mut scratch, None);
+        if again.log_hash != outs[0].log_hash {
+            diff_kind = VKind::History;
+        }
+    }
     // differential oracle across variants
     for vi in 1..outs.len() {
         if outs[vi].log_hash != outs[0].log_hash {
@@ -559,7 +574,7 @@ pub fn run_family(fam: &Family, stats: &mut Stats) -> FamilyOutcome {
                         );
                         violations.push((
                             vi,
-                            Violation { kind: fam.diff_kind, thread: t, op: i, what: what.clone() },
+                            Violation { kind: diff_kind, thread: t, op: i, what: what.clone() },
                         ));
                         break 'find;
                     }
